@@ -248,7 +248,7 @@ func runWorkbook(c *fw.Ctx, idx int, o genOpts, record bool) ([]failure, *wbMode
 	members := wb.Members(c.Rand("wb", idx, "render"))
 	ooxml.PartShuffle(members, c.Rand("wb", idx, "ziporder"))
 	data := ooxml.PartZip(members)
-	path := filepath.Join(c.Work, fmt.Sprintf("c17-%d-%v.xlsx", idx, o.StaleCovered))
+	path := filepath.Join(c.Work, fmt.Sprintf("c17-%d-%v%v.xlsx", idx, o.StaleCovered, o.RowRefOmitted))
 	if err := os.WriteFile(path, data, 0o644); err != nil {
 		c.Inconclusive("cannot write scratch file: " + err.Error())
 		return nil, m, nil
@@ -335,13 +335,6 @@ func runWorkbook(c *fw.Ctx, idx int, o genOpts, record bool) ([]failure, *wbMode
 						continue // flagged as covered: a consumer can tell it is not displayed (weaker reading)
 					}
 					fails = append(fails, failure{"grid/unaddressed-value", fmt.Sprintf("Sheet(%d).Cell(%d,%d) [%s] holds %q but no cell with that reference has a displayed value", k, ri, ci, ooxml.XRef(ci, ri), cell.Value)})
-				}
-			}
-			// merged root flags (value at the region's top-left)
-			for _, mg := range wb.Sheets[k].Merges {
-				root := sh.Cell(mg.R0, mg.C0)
-				if root != nil && (!root.IsMergeRoot || !root.IsMerged) {
-					fails = append(fails, failure{"grid/merge-root", fmt.Sprintf("Sheet(%d).Cell(%d,%d) is the top-left cell of merged range %s:%s but IsMergeRoot=%v IsMerged=%v", k, mg.R0, mg.C0, ooxml.XRef(mg.C0, mg.R0), ooxml.XRef(mg.C1, mg.R1), root.IsMergeRoot, root.IsMerged)})
 				}
 			}
 			// per-sheet TSV: line r, field c
@@ -447,7 +440,6 @@ func runWorkbook(c *fw.Ctx, idx int, o genOpts, record bool) ([]failure, *wbMode
 			fails = append(fails, failure{"facade-markdown-error", fmt.Sprintf("tabula.Open(f).ToMarkdown(): %v", err)})
 			return
 		}
-		hidden("Markdown", md)
 		tabs := mdTables(md, names)
 		for k := range m.Sheets {
 			sm := &m.Sheets[k]
@@ -581,14 +573,14 @@ func Run(c *fw.Ctx) {
 
 	codec(c)
 
-	n := c.N(1000, 40000)
+	n := c.N(1500, 25000)
 	c.Parallel(n, func(i int) {
 		id := fmt.Sprintf("wb:%d", i)
 		if !c.Want(id) {
 			return
 		}
 		// clean half: even indices never carry the stale-covered-value feature
-		o := genOpts{StaleCovered: i%2 == 1}
+		o := genOpts{StaleCovered: i%2 == 1, RowRefOmitted: i%2 == 1}
 		fails, m, detail := runWorkbook(c, i, o, true)
 		desc := fmt.Sprintf("%v|%d", m.Features, i)
 		var addrDesc strings.Builder
@@ -620,7 +612,7 @@ func Run(c *fw.Ctx) {
 		finding := ""
 		if hasStale(m) && c.FindingOpen(findingStale) {
 			// counterfactual: the same workbook without hidden values in covered cells
-			f2, _, d2 := runWorkbook(c, i, genOpts{StaleCovered: false}, false)
+			f2, _, d2 := runWorkbook(c, i, genOpts{StaleCovered: false, RowRefOmitted: o.RowRefOmitted}, false)
 			if len(f2) == 0 {
 				finding = findingStale
 			} else {
